@@ -81,6 +81,10 @@ func c17Draw(t *core.Tape, bigLog []byte) c17Req {
 func c17Run(r *core.Run) {
 	t := r.T
 	tsm := world.NewTSM()
+	// how this kernel shows attributes: an entry not yet bound reads as an error / empty / "-1"; a bound
+	// index with or without the trailing newline
+	tsm.UnboundIndex = t.Draw(3)
+	tsm.IndexNoNewline = t.Chance(1, 4)
 	// pre-existing entries
 	switch t.Draw(5) {
 	case 0:
@@ -89,7 +93,10 @@ func c17Run(r *core.Run) {
 		r.Probe("preexisting_entry_same_index")
 	case 2:
 		tsm.Entries["aaa-unbound"] = &world.TSMEntry{Index: -1}
-		tsm.Entries["rtmr0-x"] = &world.TSMEntry{Index: 0}
+		if t.Bool() {
+			tsm.Entries["rtmr0-x"] = &world.TSMEntry{Index: 0}
+		}
+		r.Probe("preexisting_unbound_entry")
 	case 3:
 		tsm.Entries["zzz-unreadable"] = &world.TSMEntry{Index: 1, Unreadable: true}
 		r.Probe("preexisting_entry_unreadable_index")
@@ -292,6 +299,6 @@ func init() {
 			return 3000
 		},
 		Run:       c17Run,
-		MustProbe: []string{"invalid_request", "entry_created", "entry_reused", "io_fault_fired", "persistent_io_fault", "preexisting_entry_same_index", "preexisting_entry_unreadable_index"},
+		MustProbe: []string{"invalid_request", "entry_created", "entry_reused", "io_fault_fired", "persistent_io_fault", "preexisting_entry_same_index", "preexisting_entry_unreadable_index", "preexisting_unbound_entry"},
 	})
 }
